@@ -15,6 +15,7 @@ const rbql = require(path.join(repo_js, 'rbql.js'));
 const rbql_csv = require(path.join(repo_js, 'rbql_csv.js'));
 
 let unhandled = [];
+let planned_streams = [];
 let paused_probe = null;
 let dirty = false;
 process.on('unhandledRejection', (reason) => { unhandled.push(String(reason && reason.message || reason).substring(0, 200)); });
@@ -226,6 +227,8 @@ class PlannedReadable extends stream.Readable {
         this.idx = 0;
         this.counters = counters;
         this.scheduled = false;
+        this.eof_pushed = false;
+        planned_streams.push(this);
     }
     _read() {
         this.counters.read_calls += 1;
@@ -239,6 +242,7 @@ class PlannedReadable extends stream.Readable {
         if (this.idx == this.plan.length) {
             this.idx += 1;
             this.counters.eof_pushed_turn = this.counters.turn;
+            this.eof_pushed = true;
             this.push(null);
             return;
         }
@@ -291,8 +295,11 @@ async function with_watchdog(promise, counters, max_turns) {
         await turns(1);
         counters.turn += 1;
         total += 1;
-        if (counters.eof_pushed_turn !== null)
+        // liveness is counted once every planned producer of this request (input and, for a JOIN, the second table) has pushed EOF
+        if (counters.eof_pushed_turn !== null && planned_streams.every(st => st.eof_pushed))
             after_eof += 1;
+        else
+            after_eof = 0;
         // a real stream that the reader left paused while a request is pending will never deliver: count those turns too
         if (paused_probe !== null && paused_probe())
             paused_turns += 1;
@@ -362,6 +369,7 @@ async function run_read(req) {
     // req: {mode: 'stream'|'bulk'|'fs_stream', plan / hex, encoding, delim, policy, has_header, comment_prefix, pace}
     let counters = {read_calls: 0, chunks_pushed: 0, eof_pushed_turn: null, turn: 0};
     paused_probe = null;
+    planned_streams = [];
     let enc = req.encoding;
     let iterator = null;
     let tmp_path = null;
@@ -390,7 +398,20 @@ async function run_read(req) {
             let out_rows = [];
             let warnings = [];
             let writer = new rbql.TableWriter(out_rows);
-            let promise = rbql.query('select *', iterator, writer, warnings).then(() => { return {records: out_rows, header: writer.header, warnings: warnings}; });
+            let registry = null;
+            let join_tmp_path = null;
+            if (req.join_hex !== undefined && req.join_hex !== null) {
+                // second reader alive at the same time: the JOIN table, as a planned stream (stream mode) or a file (bulk mode)
+                if (req.mode == 'stream') {
+                    let jcounters = {read_calls: 0, chunks_pushed: 0, eof_pushed_turn: null, turn: 0};
+                    registry = {get_iterator_by_table_id: (table_id) => new rbql_csv.CSVRecordIterator(new PlannedReadable(req.join_plan, jcounters, req.hwm ? {highWaterMark: req.hwm} : {}), null, enc, req.delim, req.policy, req.has_header, req.comment_prefix, table_id, 'b'), get_warnings: () => []};
+                } else {
+                    join_tmp_path = path.join(req.tmp_dir, 'c20_join.bin');
+                    fs.writeFileSync(join_tmp_path, Buffer.from(req.join_hex, 'hex'));
+                    registry = {get_iterator_by_table_id: (table_id) => new rbql_csv.CSVRecordIterator(null, join_tmp_path, enc, req.delim, req.policy, req.has_header, req.comment_prefix, table_id, 'b'), get_warnings: () => []};
+                }
+            }
+            let promise = rbql.query(pace.query || 'select *', iterator, writer, warnings, registry).then(() => { return {records: out_rows, header: writer.header, warnings: warnings}; });
             value = await guarded(promise, counters, max_turns);
         } else {
             value = await read_all(iterator, pace, counters, max_turns);
